@@ -16,3 +16,16 @@ if [ ! -f model_driver ] || [ /verif/coq/model.ml -nt model_driver ] || [ /verif
   cp /verif/harness/fmt_model.ml .
   ocamlfind ocamlopt -w -a model.mli model.ml fmt_model.ml -o fmt_model
 fi
+# C17: the normalisation model over the regenerated tables (own target: a failure here only affects C17)
+if [ -f /verif/coq/Gen/UniTables.v ]; then
+  cd /verif/coq
+  if timeout 1800 make -j16 ExtractUni.vo > /verif/coq/make_uni.log 2>&1; then
+    cd /verif/build/model
+    if [ ! -f uni_model ] || [ /verif/coq/unimodel.ml -nt uni_model ] || [ /verif/harness/uni_model.ml -nt uni_model ]; then
+      cp /verif/coq/unimodel.ml /verif/coq/unimodel.mli /verif/harness/uni_model.ml .
+      ocamlfind ocamlopt -w -a unimodel.mli unimodel.ml uni_model.ml -o uni_model
+    fi
+  else
+    rm -f /verif/build/model/uni_model
+  fi
+fi
